@@ -324,6 +324,7 @@ Section Loader.
   Inductive mpd_obs :=
   | MReadErr                  (* fs.ReadFile fails *)
   | MBad                      (* not parsable, number of periods != 1, type != static *)
+  | MNoType (sets : list aset) (* one period, no type attribute: mpd.Type is nil *)
   | MOk (sets : list aset).
 
   Record asset := {
@@ -417,6 +418,7 @@ Section Loader.
     match o with
     | MReadErr => Ok (a, c, Some "read MPD")
     | MBad => Ok (a, c, Some "bad MPD")
+    | MNoType _ => Panic "loadAsset: invalid memory address or nil pointer dereference"   (* *mpd.Type *)
     | MOk sets =>
       let a1 := {| a_mpds := a_mpds a ++ [mpdName]; a_reps := a_reps a; a_segdur := a_segdur a;
                    a_loop := a_loop a; a_ref := a_ref a |} in
